@@ -38,6 +38,11 @@ CHECKS = {
             "For the session, task and thread streams (thread with the sidecar present and deleted) every interleaving of the producer's lock/publish/record steps with one subscriber's subscribe / snapshot steps is executed with no preemption bound (two subscribers: preemption bound 2 in quick for sessions, all kinds in thorough); each execution runs the real run_session / TaskEmitter::emit / append_message against the real GET .../events handler, and the frames the subscriber's body yields must be exactly the stream's frames in the log, once, in order.",
             "Scheduling granularity = hook points; body polling order is not explored (the broadcast receiver buffers everything after subscribe; lag beyond the 16384-frame capacity is outside the quantifier); 3-4 frames per stream; replay determinism is asserted.",
             "DESIGN.md §3 C06"),
+    "C07": ("P", "exploration",
+            "bounded exhaustive enumeration of provider scripts x input kinds x parallel-run pairs through the production router against an in-process scripted provider; lifecycle grammar evaluated on the log",
+            "First responses = every sequence of <=2 (quick) / <=3 (thorough) events from a 7-event alphabet (text, completed, calls to write / unknown tool / invalid args, malformed JSON, schema-invalid) x {[DONE], close, abort}, cuts inside the last event, HTTP errors, empty body; 6 follow-up responses after calls; both history modes; 9 input kinds (prompt, tool and checkpoint envelopes incl. failing, timing-out, unknown, refused) with and without provider; two context-compile failures; 6 pairs of parallel runs. Every run goes through POST /threads/{id}/messages; afterwards each message must have exactly one run_spawned, each run exactly one run_ended after its single terminal session frame, selection < compiled < side effects / cursor < ended, sessions start at seq 0 and end once, jobs end at most once, and validated replay must hold.",
+            "Script alphabet and length bounds; real runtime scheduling inside a run is not controlled (the oracle is schedule-independent); provider-gated enumeration of exchange orders for parallel runs is not built (pairs run freely).",
+            "DESIGN.md §3 C07"),
     "C08": ("H-histories", "exploration",
             "bounded exhaustive enumeration of thread histories x every message anchor through the real compile entry; path differential (cache variants, later appends) + reference of the documented contract",
             "Every history of <=4 (quick) / <=5 (thorough) ops over {message, answered run, open run, run_ended for the oldest open run, side effects, cursor, checkpoints at last/first message} and macro threads crossing the 16-message limit and the tail windows (15/16/17/18/33 messages, 17 answered runs, 20 messages with three checkpoints, 40 x 20 KiB, thorough 18 x 600 KiB) is compiled for every message as anchor on the warm store, a restarted store, a store without the messages+runs cache family and a store without caches; from_seq, strategy, selected checkpoints and the user/assistant dialogue must agree across the four and equal the reference contract, and must not change when frames are appended after the cut.",
@@ -123,6 +128,8 @@ def main():
              "kind_free_text": "stateless schedule explorer: cooperative token-passing scheduler over OS threads running the real code, scheduling points at the cfg(rip_verif) hooks, lock predicates on the real locks, DFS with preemption bounding, deterministic replay"},
             {"name": "K", "path": "/verif/harness/src/c05.rs + /verif/harness/shim/crashshim.c", "serves_properties": ["C05"],
              "kind_free_text": "crash-point enumerator: LD_PRELOAD shim counting mutating fs calls on store paths, _exit before call k for every k, recovery oracle in the parent"},
+            {"name": "P", "path": "/verif/harness/src/provx.rs", "serves_properties": sorted(k for k, v in CHECKS.items() if v[0] == "P"),
+             "kind_free_text": "scripted in-process HTTP provider (axum on 127.0.0.1:0, per-run scripts of SSE chunks / errors / aborts, records received requests) + the production router driven with tower oneshot on a real runtime"},
             {"name": "H-bfs", "path": "/verif/harness/src", "serves_properties": ["C20"],
              "kind_free_text": "bounded exhaustive sequence/input enumeration over the real code (BFS with state keys where futures coincide)"},
             {"name": "H-histories", "path": "/verif/harness/src", "serves_properties": sorted(k for k, v in CHECKS.items() if v[0] == "H-histories"),
